@@ -251,8 +251,9 @@ def run(prog: Program, res: Result) -> None:
     elif verdict == "bad":
         bad("R4-bounds-of-children", gbm, "DiscreteMultiVariable", f"DiscreteMultiVariable.get_bounds: {why_b}", "get_bounds")
     else:
-        res.errors.append(f"{gbm.loc()} DiscreteMultiVariable.get_bounds: `{norm(rv, 70) if rv is not None else None}` is not recognised "
-                          f"as the children's bounds (undecided)")
+        # a positive-only rule: it reports the recognised wrong form and claims nothing about forms it does not know
+        res.note(f"{gbm.loc()} DiscreteMultiVariable.get_bounds: `{norm(rv, 70) if rv is not None else None}` is not recognised as the "
+                 f"children's bounds (R4-bounds-of-children makes no claim)")
 
     # ------------------------------------------------------------------ R4 multi kinds
     spec_children = {
